@@ -14,14 +14,14 @@ NOTE_COMMON = ("Trusted base: rustc's MIR of the scratch copy of the working tre
 
 CHECKS = {
     "C01": dict(
-        technique="abstract interpretation of MIR (per-bit provenance, intervals, may-depend sets) + grammar-to-helper table extraction",
+        technique="abstract interpretation of MIR (per-bit provenance, intervals, may-depend sets) + grammar-to-helper table extraction; sibling comparison of the byte and word implementations as expression trees (dropped operand / single differing node)",
         text="Decides structurally, for all operands at once: the flag write-set and definedness of ADD/ADC/SUB/SBB/CMP/INC/DEC/NEG (incl. CF "
              "preservation of INC/DEC), the machine frame (no other register/flag/memory byte), CMP writing no destination, the required "
              "input dependencies of result and of every flag (a missing dependency is a definite defect), byte/word table agreement and "
              "abort freedom of the helpers and actions. Does NOT decide the numeric result or the flag formulas (value level).",
         design="DESIGN.md §6 C01"),
     "C02": dict(
-        technique="abstract interpretation of MIR (bit domain exact for logic ops and NOT, count specialisation 0 / 1 / >=1, interval abort analysis)",
+        technique="abstract interpretation of MIR (bit domain exact for logic ops and NOT, count specialisation 0 / 1 / >=1, interval abort analysis); sibling fingerprints of byte/word shift and rotate implementations",
         text="Decides: AND/OR/XOR/TEST clear CF/OF exactly and assign SF/ZF/PF on every path; NOT is an exact complement and touches no flag; TEST "
              "stores nothing; count==0 changes neither operand nor flags; no count 0..255 aborts a helper; required dependencies; shl==sal; "
              "flag frames for count>=1. Does NOT decide the shifted/rotated value or the CF/OF formulas for count>=1.",
@@ -29,14 +29,14 @@ CHECKS = {
 }
 
 CHECKS["C03"] = dict(
-    technique="abstract interpretation of MIR (interval refinement for the zero test, lossy-narrowing dataflow on Div results, may-depend sets) + CFG rules on the Err arm and the driver's INT(0) arm",
+    technique="abstract interpretation of MIR (interval refinement for the zero test, lossy-narrowing dataflow on Div results, may-depend sets) + CFG rules on the Err arm and the driver's INT(0) arm; byte-level frames of the adjust instructions (AH/AL dependencies nibble-wise)",
     text="Decides the divide-error protocol (zero test dominates Div/Rem; MIN/-1; every narrowing cast of a quotient lossless or guarded by a dividend "
          "test; Err => nothing modified, action returns INT(0), driver returns), that CF/OF of MUL/IMUL depend on both factors, frames of MUL/DIV and "
          "of AAA..CWD, CBW/CWD sign dependency. Does NOT decide products, quotients or decimal-adjust results as numbers.",
     design="DESIGN.md §6 C03")
 
 CHECKS["C04"] = dict(
-    technique="abstract interpretation of MIR with an affine-with-modulus domain; closed-form comparison against the Intel address form (witness = valuation of the symbols of the two forms); bit domain for register aliasing and lanes",
+    technique="abstract interpretation of MIR with an affine-with-modulus domain; closed-form comparison against the Intel address form (witness = valuation of the symbols of the two forms); bit domain for register aliasing and lanes; register, segment and address-wrapper nonterminals derived from the grammar (not named)",
     text="Decides, for every alternative of memory_addr (105 register/override/number variants), the label forms and LEA: required register/"
          "segment dependencies (default SS iff BP), equality of the exact address form with (16*seg + offset16) mod 2^20, address < 2^20, exact "
          "byte-register aliasing, word lanes m / m+1 low-first in every interpreter action, LEA touching neither memory nor flags and loading the "
@@ -89,7 +89,7 @@ CHECKS["C11"] = dict(
     design="DESIGN.md §6 C11")
 
 CHECKS["C12"] = dict(
-    technique="action-AST evaluation to counter polynomials on both sides of the assembler/loader interface (paired through the loader's LR tables), bit-domain lanes, overflow-site classification, CFG dominance rule for DS := 0",
+    technique="action-AST evaluation to counter polynomials on both sides of the assembler/loader interface (paired through the loader's LR tables), bit-domain lanes, overflow-site classification, CFG dominance rule for DS := 0; slice-length polynomials carried through wrapping nonterminals; helper methods of Context inlined",
     text="Decides per directive form: assembler counter increment == loader counter increment == bytes stored (as polynomials in the directive's numbers "
          "and string length); labels bound to the counter before the increment; dw lanes; u16 counter / loop-bound overflow sites (DEFINITE = a segment "
          "beyond 64 KiB aborts or wraps instead of being diagnosed); DS := 0 dominates the first executed instruction; OFFSET returns the bound value. Does "
@@ -134,7 +134,7 @@ CHECKS["C19"] = dict(
     design="DESIGN.md §6 C19")
 
 CHECKS["C20"] = dict(
-    technique="CFG rules on the binary crate's MIR: taint of read_line's byte count to a loop exit, classification of prompt words by the ending their equal-edge reaches, effect scan of the stepping region and the INT 3 arm, truth table of prompt counts by partial evaluation of the region's branches over the atoms interpreted/TF/not-the-appended-hlt, value tracing of the message position",
+    technique="CFG rules on the binary crate's MIR: taint of read_line's byte count to a loop exit, classification of prompt words by the ending their equal-edge reaches, effect scan of the stepping region and the INT 3 arm, truth table of prompt counts by partial evaluation of the region's branches over the atoms interpreted/TF/not-the-appended-hlt, value tracing of the message position; type-based recognition of text comparisons (any `eq` on string-typed operands)",
     text="Decides: the prompt loop has an end-of-input exit; n/next return, q/quit exit, every other line goes to the print parser with the same &VM and then back to "
          "the prompt; between the loop head and the interpreter call (and in the INT 3 arm) nothing assigns the instruction index or borrows the machine mutably, and "
          "the prompt/print functions take &VM; the number of prompts before an instruction is exactly 1 iff (interpreted or TF of the current flag word) and the "
@@ -151,7 +151,7 @@ CHECKS["C18"] = dict(
     design="DESIGN.md §6 C18")
 
 CHECKS["C17"] = dict(
-    technique="format-literal/argument pairing on the syn ASTs of the print actions cross-checked against the MIR borrow sequence; type facts (&VM everywhere); abstract interpretation of the three `print mem` productions (affine closed forms of the range ends, interval proof of every memory index); finite-state evaluation of the column counter; MIR value tracing in the driver",
+    technique="format-literal/argument pairing on the syn ASTs of the print actions cross-checked against the MIR borrow sequence; type facts (&VM everywhere); abstract interpretation of the three `print mem` productions (affine closed forms of the range ends, interval proof of every memory index); finite-state evaluation of the column counter; MIR value tracing in the driver; closed-form range rules (start/end of each print-mem form incl. `end stays inside the 1 MB space`), 16-state row-layout automaton",
     text="Decides: every label of `print reg`/`print flags` is followed by the value of the register/flag it names (12 + 9 pairs, resolved by the compiler), in {:04X} / 0-1 / "
          "{:02X} format; the printer, the prompt and every print action can only read the machine; the printed range is exactly a..=b, a..=a+n, 16*DS..=16*DS+n in closed form "
          "for all numerals and DS, with every vm.mem index proved < 2^20 (backwards and overflowing ranges are diverted); the PRINT arm and the prompt use one parser object and "
